@@ -1,5 +1,5 @@
 CFG = {
-    "modules": ["Parsley.Props.C03"],
+    "modules": ["Parsley.Props.C03", "Parsley.Props.C03E2E"],
     "theorems": [
         "Parsley.C03.identity_mismatch_rejected", "Parsley.C03.identity_mismatch_rejected_second",
         "Parsley.C03.firstPass_reject_lifts", "Parsley.C03.firstPass_direct",
@@ -7,24 +7,45 @@ CFG = {
         "Parsley.C03.load_never_panics_partial", "Parsley.LoaderNoPanic.parseData_no_panic",
         "Parsley.LoaderNoPanic.parseIndirect_inv", "Parsley.LoaderNoPanic.xrefLoop_ok", "Parsley.LoaderNoPanic.parseObjects_no_panic",
         "Parsley.C03.hybrid_hidden_gen0_witness",
+        # follow-up C03b: end to end
+        "Parsley.C03.load_defines_exactly_classic", "Parsley.C03.load_never_panics", "Parsley.C03.exFile_wf",
+        "Parsley.LoaderE2E.load_classic", "Parsley.LoaderE2E.reads_spelled", "Parsley.LoaderE2E.reads_stream_direct",
+        "Parsley.LoaderE2E.reads_stream_ref", "Parsley.LoaderE2E.trailer_spelled", "Parsley.LoaderE2E.table_roundtrip_at",
+        "Parsley.LoaderE2E.section_classic", "Parsley.LoaderE2E.xrefinfo_classic", "Parsley.LoaderE2E.reads_body",
+        "Parsley.LoaderE2E.parseData_scan", "Parsley.LoaderE2E.scanBack_at", "Parsley.LoaderE2E.scanFwd_at",
+        "Parsley.LoaderE2E.loadView_tail",
+        "Parsley.LoaderDecoders.applyFilter_no_panic", "Parsley.LoaderDecoders.inflate_no_panic",
+        "Parsley.LoaderDecoders.applyFilter_len", "Parsley.LoaderDecoders.load_never_panics",
+        "Parsley.LoaderDecoders.size_clause_false",
     ],
     "partial": {
         "load_defines_exactly_partial":
             "FULL STATEMENT WANTED: for every document d and layout l, parseData (renderDoc d l) = ok (defs = d.objs, root = d.root). "
-            "PROVED: the object-loading stage (parse_objects) for direct objects - for all entry lists with distinct identifiers whose offsets "
-            "hold objects that read as (id, gen) -> value in every context not yet defining them (premise ReadsAt, shown satisfiable by tiny_reads), "
-            "parse_objects started from the empty context defines exactly those identifiers with those values and nothing else. "
-            "NOT closed by a theorem (decided by the correspondence run against the oracle DocSpec.resolve on generated files, and by kernel-evaluated "
-            "whole-model runs on one concrete file per layout): the composition with header scan / leading-garbage view / backward scans / startxref / "
-            "trailer and with the xref decoders (C13: table, stream, /W, /Index; C06/C07: Flate + PNG-Up), the premise ReadsAt for arbitrary spellings "
-            "(C02's spell_parse is itself partial), and the layouts: object streams, hybrid files, forward-referenced /Length (second pass).",
+            "PROVED END TO END (load_defines_exactly_classic = LoaderE2E.load_classic, follow-up C03b) for the layout class 'single revision, classic table': "
+            "for EVERY well-formed ClassicFile - leading garbage not containing the magic, any header line after %PDF-, objects `n g obj <value> endobj` "
+            "whose value is written in ANY legal spelling (C02.Spells: all value kinds, nested arrays/dictionaries to depth 50, any digit strings incl. leading "
+            "zeros, any white space / comment runs between the pieces), stream objects with a direct /Length (dictionary in any legal spelling, both EOLs after "
+            "`stream`, all four before `endstream`, arbitrary data), arbitrary bytes between objects, a table with any subsection partition / terminators / "
+            "header padding C13's encoder can express, the trailer dictionary in any legal spelling, any bytes between trailer and startxref, white space / "
+            "comments after startxref, the offset in any digit string, a tail after %%EOF - parseData accepts, reports the trailer's /Root, binds every object "
+            "identifier to the value written and defines nothing else. Well-formedness (ClassicFile.WF) = the table's in-use entries are exactly the objects at "
+            "their offsets, distinct identifiers and object numbers, /Root a reference, no /Prev, no /XRefStm, startxref = offset of the table; non-vacuity: "
+            "exFile_wf (garbage + plain object + stream). The premise ReadsAt of the stage theorem is now DISCHARGED for every Spells spelling (reads_spelled) and "
+            "for direct-/Length streams via C05's framing theorem (reads_stream_direct); streams with a referenced /Length read where the holder is bound and "
+            "give InsufficientContext where it is not (reads_stream_ref), and the two-pass stage theorem (LoaderTwoPass.load_two_pass, if listed above) covers the "
+            "second pass. EXCLUDED from the end-to-end theorem (still decided by the correspondence run against the oracle DocSpec.resolve and by kernel-evaluated "
+            "whole-model runs per layout): cross-reference STREAM layouts (/W, /Index, Flate + PNG-Up), object streams, hybrid files, and the composition of "
+            "the two-pass stage into load_classic (forward-referenced /Length); technical side conditions of the classic theorem: no byte 's' in the white "
+            "space / comments between `startxref` and its number, no further %%EOF after the last one. The link 'DocSpec.renderHistory with kind 0 produces a "
+            "WF ClassicFile' is not proved in general (Spelling.spell -> Spells is C02's spell_is_Spells_partial); ClassicFile is the (more general) declarative layout.",
         "load_never_panics_partial":
             "FULL STATEMENT WANTED: for all inputs parseData never reaches a panic site. PROVED: for every input below 2^62 bytes no panic site of "
-            "the loader's glue or of any composed parser (object, indirect object, xref table, xref stream incl. /Index and /W arithmetic, object "
-            "stream incl. set_cursor address arithmetic, the /Prev loop's fuel, both passes with the context invariant cur<=max and sorted "
-            "definitions) is reachable, PROVIDED the stream decoders neither panic nor return more than 2^63 bytes (hypothesis DecodersTotal about "
-            "Filters.applyFilter Loader.ext: the executable zlib inflate model can end in its own fuel outcome, hex2bin has an unreachable index "
-            "site; discharging these is C06/C07 material). The real decoders are exercised by the correspondence run (Flate'd xref and object streams).",
+            "the loader's glue or of any composed parser is reachable (as before), and NOW ALSO (LoaderDecoders.applyFilter_no_panic, follow-up C03b) no panic "
+            "outcome of any stream decoder model: inflate's fuel is sufficient (measure = unread bits), hex2bin's index site is guarded by the parity check, the "
+            "ASCII85 crate's arithmetic panics are caught by a85Decode, predictor sites by C07. The first clause of DecodersTotal is discharged; the theorem "
+            "load_never_panics keeps ONLY the size hypothesis DecodedSizes (decoder outputs are Rust buffers <= 2^63 bytes, needed only for decoder inputs above "
+            "2^63/2064 bytes; applyFilter_len bounds the output by 2064 x input; size_clause_false shows the unrestricted size clause is false of a list model, "
+            "so it is an environment assumption - such a buffer cannot be allocated - not a proof gap).",
         "(known finding)": "hybrid files whose hidden objects have generation-0 free entries lose those objects (#31): hybrid_hidden_gen0_witness; "
             "same root cause as C04-generation-changed",
     },
